@@ -301,13 +301,17 @@ class C09Engine(Engine):
     def assumptions(self):
         return ["SimMP models imap_unordered's observable behaviour (FIFO result queue, at most `processes` running "
                 "tasks, lazy pulls, pickling); validated against the real pool on a few calls in the thorough tier",
-                "digests are compared only between interpreters in the same (JIT) mode on this machine",
+                "digests are compared only between interpreters in the same (JIT) mode on this machine; the main batch "
+                "runs with the JIT off (Python-level code is identical in both modes), the JIT-on mode is covered by the "
+                "sweep slices",
                 "inputs are sampled by the seeded workload generator (contemporary samples only: the discrete methods "
                 "reject anything else)"]
 
     def components(self):
-        return {"real": ["tsdate public API (date, inside_outside, maximization, variational_gamma, build_prior_grid) "
-                         "with compiled kernels", "pickle round trips of pool traffic", "tskit"],
+        return {"real": ["tsdate public API (date, inside_outside, maximization, variational_gamma, build_prior_grid): "
+                         "main batch with NUMBA_DISABLE_JIT=1 in fresh copies of the package, sweep slices with compiled "
+                         "kernels in forked processes", "the on-disk prior cache (real files in a per-run directory)",
+                         "pickle round trips of pool traffic", "tskit"],
                 "stubbed": ["multiprocessing.Pool -> sim.simmp.SimPool (scheduling decided by the tape)",
                             "time module of tsdate.core/util/variational and tskit.provenance -> virtual clock"]}
 
